@@ -109,8 +109,9 @@ class tenmat:
             return
 
         # Verify that data is a numeric numpy.ndarray
+        # (boolean data is accepted as it is by the tensor constructor)
         assert isinstance(data, np.ndarray) and issubclass(
-            data.dtype.type, np.number
+            data.dtype.type, (np.number, np.bool_)
         ), "First argument must be a numeric numpy.ndarray."
 
         # data is 1d array, must convert to 2d array for tenmat
